@@ -726,6 +726,31 @@ addition; a source /Rotate 2147483610 (a multiple of 90) rotated by 90 overflows
 theorem C16_witness_rotation_overflow : rotated 2147483610 90 = .panic ∧ (2147483610 : Int) % 90 = 0 := by
   decide
 
+/-- the overflow-free form agrees with the current code wherever that answers … -/
+theorem C16_rotatedRepaired_agrees (r a x : Int) (h : rotated r a = .ok x) :
+    rotatedRepaired r a = .ok x := by
+  unfold rotated at h
+  simp only at h
+  split at h
+  · cases h
+  · cases h
+    unfold rotatedRepaired
+    have : (r % 360 + a) % 360 = (r + a) % 360 := by omega
+    rw [this]
+
+/-- … never panics, and satisfies the rotation law for EVERY source /Rotate that is a multiple of
+90 (no i32 range hypothesis): what the statement asks of C16-F3's repair. -/
+theorem C16_rotatedRepaired_mod360 (r a : Int) (hr : r % 90 = 0) (ha : a = 0 ∨ a = 90 ∨ a = 180 ∨ a = 270) :
+    ∃ x, rotatedRepaired r a = .ok x ∧ (x = 0 ∨ x = 90 ∨ x = 180 ∨ x = 270) ∧ (x - (r + a)) % 360 = 0 := by
+  unfold rotatedRepaired snap
+  have hm : (r % 360 + a) % 360 = 0 ∨ (r % 360 + a) % 360 = 90 ∨ (r % 360 + a) % 360 = 180 ∨
+      (r % 360 + a) % 360 = 270 := by omega
+  refine ⟨_, rfl, ?_, ?_⟩
+  · rcases hm with h | h | h | h <;> simp [h]
+  · rcases hm with h | h | h | h <;> simp [h] <;> omega
+
+example : rotatedRepaired 2147483610 90 = .ok 180 ∧ rotated 2147483610 90 = .panic := by decide
+
 /-- what `rotate` does to one page -/
 def RotRel (idx : List Nat) (angle : Int) (i : Nat) (p : Src) (o : Out) : Prop :=
   o = { copyPage p with rotation := o.rotation } ∧
